@@ -9,3 +9,4 @@ CONSTANTS NLay = 3
  MaxDrops = 9
  Shapes = {"bb"}
  Export = FALSE
+ ND = 1
